@@ -48,7 +48,13 @@ func (cb *CircuitBreaker) Allow() bool {
 	case CircuitOpen:
 		lastFailure := time.Unix(0, cb.lastFailureTime.Load())
 		if time.Since(lastFailure) > cb.config.OpenDuration {
-			cb.transitionToHalfOpen()
+			// Only the first of several concurrent callers performs the transition;
+			// a second one must not reset the half-open admission counter again
+			cb.mu.Lock()
+			if CircuitBreakerState(cb.state.Load()) == CircuitOpen {
+				cb.transitionToHalfOpen()
+			}
+			cb.mu.Unlock()
 			return cb.allowHalfOpen()
 		}
 		return false
@@ -138,10 +144,11 @@ func (cb *CircuitBreaker) transitionToOpen() {
 }
 
 func (cb *CircuitBreaker) transitionToHalfOpen() {
-	cb.state.Store(int32(CircuitHalfOpen))
+	// counters first: a caller that already sees half-open must find them reset
 	cb.failures.Store(0)
 	cb.successes.Store(0)
 	cb.halfOpenRequests.Store(0)
+	cb.state.Store(int32(CircuitHalfOpen))
 }
 
 func (cb *CircuitBreaker) transitionToClosed() {
